@@ -85,7 +85,10 @@ def stepLine (s : State) (toks : List String) : State × String :=
   | ["bb.consume", n] => match n.toNat? with | some n => bbOp s (.consume n) | none => (s, "bad-op")
   | ["bb.atmost", n] => match n.toNat? with | some n => bbOp s (.atMost n) | none => (s, "bad-op")
   | ["bb.rewind"] => bbOp s .rewind
-  | ["bb.clear"] => bbOp s .clear true
+  | ["bb.clear"] =>
+    -- the statement: clear empties AND zeroes the buffer (all of its size octets) - part of the spec view
+    let (s', out) := bbOp s .clear true
+    (s', out ++ " wiped=1")
   | ["bb.reset"] => bbOp s .reset
   | ["bb.repeat"] => bbOp s .repeat_
   | ["rb.init", _ty, cap] =>
